@@ -1200,7 +1200,7 @@ def check_C15(ck):
         n_c = len(reg.parents)
         ids = gen.make_ids(rng, n_c + 1, pol)
         ghost = ids[n_c][0]          # an id that is never registered
-        kind = rng.choice(["base", "method", "def", "call", "call", "vnew", "exact", "final", "history", "history"])
+        kind = rng.choice(["base", "base2", "method", "def", "call", "call", "vnew", "exact", "final", "history", "history"])
         body = registry_lines(rng, reg, pol, ids[:n_c])
         lines = ["policy " + pol]
         exp = []   # (marker, expected line)
@@ -1210,6 +1210,19 @@ def check_C15(ck):
             cl = [j for j, l in enumerate(body) if l.startswith("class")]
             j = rng.choice(cl)
             body[j] = body[j] + " %d" % ghost
+            lines += body + ["echo U", "update"]
+            exp.append(("U", "update raised unknown_class %d" % ghost))
+        elif kind == "base2":
+            # the unregistered base is listed by a further record of a class that another record already gave a
+            # proper base (classes are routinely registered several times, with different lists)
+            cl = [j for j, l in enumerate(body) if l.startswith("class") and len(l.split()) > 5]
+            if not cl:
+                continue
+            j = rng.choice(cl)
+            cid = body[j].split()[2]
+            extra = "class 950 %s 0 %s %d" % (cid, cid, ghost)
+            pos = rng.choice([j + 1, len(body), rng.randint(j + 1, len(body))]) if rng.random() < 0.8 else rng.randint(0, j)
+            body.insert(pos, extra)
             lines += body + ["echo U", "update"]
             exp.append(("U", "update raised unknown_class %d" % ghost))
         elif kind in ("method", "def"):
